@@ -1,32 +1,44 @@
 #!/venv/bin/python
-"""Apply each mutant to /repo, run the property's quick check, revert.
-usage: tools/runmut.py <Cxx> <mutant-name>... [--tests]   (mutant names without .diff)
-Prints one line per mutant: KILLED / SURVIVED (+ whether baseline tests pass with --tests)."""
-import subprocess, sys, os, time
+"""Sensitivity runs: apply each mutant patch to a scratch copy of /repo (under
+/tmp, removed afterwards), run the property's quick check against the copy
+(VERIF_REPO_SRC) and optionally the baseline tests inside the copy.
+usage: tools/runmut.py <Cxx> <mutant-name|path.diff>... [--tests] [--tier quick]
+"""
+import os, shutil, subprocess, sys, tempfile, time
 here = os.path.dirname(os.path.abspath(__file__))
 root = os.path.dirname(here)
 args = [a for a in sys.argv[1:] if not a.startswith("--")]
 run_tests = "--tests" in sys.argv
 prop, names = args[0], args[1:]
-assert subprocess.run(["git", "-C", "/repo", "status", "--porcelain"], capture_output=True, text=True).stdout.strip() == "", "/repo dirty"
 for n in names:
-    p = os.path.join(here, "mutants", n + ".diff")
-    subprocess.run(["git", "-C", "/repo", "apply", p], check=True)
+    p = n if os.path.exists(n) else os.path.join(here, "mutants", n + ".diff")
+    p = os.path.abspath(p)
+    d = tempfile.mkdtemp(prefix="mut_", dir="/tmp")
     try:
+        subprocess.run(["git", "-C", "/repo", "worktree", "add", "--detach", "-f", d + "/r", "HEAD"], check=True, capture_output=True)
+        shutil.copy("/repo/src/gtirb_rewriting/version.py", d + "/r/src/gtirb_rewriting/version.py")
+        r = subprocess.run(["git", "-C", d + "/r", "apply", p], capture_output=True, text=True)
+        if r.returncode:
+            print(f"{prop} {n}: PATCH DOES NOT APPLY: {r.stderr.strip()[:200]}")
+            continue
+        out = tempfile.mkdtemp(prefix="out_", dir=d)
         t = time.time()
-        r = subprocess.run(["/venv/bin/python", "-m", "vp.run", prop, "--tier", "quick"], cwd=root, capture_output=True, text=True,
-                           env=dict(os.environ, VERIF_NO_EVIDENCE="1"))
+        env = dict(os.environ, VERIF_REPO_SRC=d + "/r/src", VERIF_OUT=out)
+        r = subprocess.run(["/venv/bin/python", "-m", "vp.run", prop, "--tier", "quick"], cwd=root, capture_output=True, text=True, env=env)
         viol = [l for l in r.stdout.splitlines() if l.startswith("VIOLATION")]
         status = {0: "SURVIVED", 1: "KILLED", 2: "HARNESS-ERROR"}.get(r.returncode, f"rc={r.returncode}")
         tests = ""
         if run_tests:
-            tr = subprocess.run("cd /repo && /venv/bin/python -m pytest -q -p no:cacheprovider -x --deselect tests/test_e2e.py 2>&1 | tail -1", shell=True, capture_output=True, text=True)
-            tests = " tests: " + tr.stdout.strip()
-        print(f"{prop} {n}: {status} ({len(viol)} buckets, {time.time()-t:.0f}s){tests}")
+            tr = subprocess.run(f"cd {d}/r && PYTHONPATH={d}/r/src /venv/bin/python -m pytest -q -p no:cacheprovider --deselect tests/test_e2e.py 2>&1 | tail -1", shell=True, capture_output=True, text=True)
+            tests = " | baseline tests: " + tr.stdout.strip()
+        print(f"{prop} {os.path.basename(n)}: {status} ({len(viol)} buckets, {time.time()-t:.0f}s){tests}")
+        shown = 0
         for l in r.stdout.splitlines():
-            if l.startswith("VIOLATION") or l.startswith("  C") or l.startswith("HARNESS"):
-                print("    " + l[:300])
+            if (l.startswith("VIOLATION") or l.startswith("  C") or l.startswith("HARNESS")) and shown < 8:
+                print("    " + l[:260]); shown += 1
+        if r.returncode == 2:
+            print(r.stdout[-1500:], r.stderr[-1500:])
+        sys.stdout.flush()
     finally:
-        subprocess.run(["git", "-C", "/repo", "checkout", "--", "."], check=True)
-        # replays written while a mutant was applied are not evidence
-        subprocess.run("git clean -fdq replays evidence 2>/dev/null; git checkout -- evidence 2>/dev/null; git checkout -- replays 2>/dev/null", shell=True, cwd=root)
+        subprocess.run(["git", "-C", "/repo", "worktree", "remove", "--force", d + "/r"], capture_output=True)
+        shutil.rmtree(d, ignore_errors=True)
